@@ -55,6 +55,14 @@ def seeds(ctx, rng):
         out.append((k, "e.evtx", data))
         if len(data) < 200_000:
             out.append((k + ".gz", "e.evtx.gz", gen.gz_bytes(data)))
+    for p in fixtures.evtxs():
+        data = open(p, "rb").read()
+        if len(data) < 200_000:
+            out.append(("evtx.tar:" + os.path.basename(p), "e.tar", gen.tar_bytes([("x/e.evtx", data, 1_600_000_000)])))
+    for p in fixtures.journals():
+        data = open(p, "rb").read()
+        if "ubuntu22x3" in p:
+            out.append(("journal.tar:" + os.path.basename(p), "j.tar", gen.tar_bytes([("x/j.journal", data, 1_600_000_000)])))
     for p in fixtures.journals():
         data = open(p, "rb").read()
         if "ubuntu22x3" in p:
@@ -100,7 +108,7 @@ def faults(ctx, rng, kind, data, budget):
             out.append(("printable-bytes", bytes(rng.choice(b"abcdefghij0123456789 :-") for _ in range(ln))))
     rng.shuffle(out)
     out = out[:budget]
-    if kind.startswith("text.tar") or kind.startswith("fixedstruct.tar"):
+    if kind.split(":")[0] in ("text.tar", "fixedstruct.tar", "evtx.tar", "journal.tar"):
         # damaged numeric header fields of the first member, header checksum recomputed so the archive reader accepts the
         # header: octal limits, non-octal text, and the base-256 form (first byte 0x80 / 0xff) that holds 64-bit and larger values
         fields = {"mode": (100, 8), "uid": (108, 8), "gid": (116, 8), "size": (124, 12), "mtime": (136, 12), "devmajor": (329, 8)}
@@ -118,6 +126,41 @@ def faults(ctx, rng, kind, data, budget):
                         b[148:156] = b" " * 8
                         b[148:156] = ("%06o\0 " % sum(b[:512])).encode()
                     out.append(("tar-header-field:%s" % fname_, bytes(b)))
+    # a file the user may not read (mode 000, run as uid 65534; only meaningful when the check itself runs as root)
+    out.append(("unreadable-file", data, None, None, "unreadable"))
+    if kind == "text":
+        # timestamp fields with values at and beyond their limits, month names in every accepted spelling (with the trailing
+        # dot the patterns allow), in notations that use month names / numeric fields
+        mons = ["Jan", "Feb", "Mar", "Apr", "May", "Jun", "Jul", "Aug", "Sep", "Sept", "Oct", "Nov", "Dec", "January", "June", "September"]
+        lines = []
+        for m in mons:
+            for sp in (m, m.lower(), m.upper(), m + ".", m.lower() + ".", m.upper() + "."):
+                lines.append(("[05/%s/2024:10:00:00 +0000] GET / x" % sp, "Sun, 5 %s 2024 10:00:00 +0000 x" % sp, "%s  5 10:00:00 2024 host x" % sp, "%s 5 10:00:00 host app: x" % sp))
+        for tpl in range(4):
+            out.append(("hostile-text:month-spellings", ("\n".join(l[tpl] for l in lines) + "\n").encode()))
+        for li in lines[::7]:
+            for one in li:
+                out.append(("hostile-text:month-spelling-first-line", (one + "\n" + one + "\n").encode()))
+        nums = []
+        for y in ("0000", "0001", "1969", "9999", "10000", "99999"):
+            nums.append("%s-01-01 00:00:00 x" % y)
+        for mo in ("00", "13", "99"):
+            nums.append("2024-%s-01 00:00:00 x" % mo)
+        for dd in ("00", "30", "31", "32", "99"):
+            nums.append("2024-02-%s 00:00:00 x" % dd)
+        for hh, mi, ss in (("24", "00", "00"), ("23", "60", "00"), ("23", "59", "60"), ("23", "59", "61"), ("99", "99", "99")):
+            nums.append("2024-01-01 %s:%s:%s x" % (hh, mi, ss))
+        for fr in ("1234567890", "123456789012345678901234567890", "0" * 40):
+            nums.append("2024-01-01 00:00:00.%s x" % fr)
+        for off in ("+24:00", "-24:00", "+99:99", "+1400", "-1201", "+0060", "+00:60"):
+            nums.append("2024-01-01 00:00:00 %s x" % off)
+            nums.append("2024-01-01T00:00:00%s x" % off)
+        for ep in ("0", "1", "99999999999", "999999999999999", "18446744073709551616", "-1"):
+            nums.append("type=X msg=audit(%s.123:45): x" % ep)
+            nums.append("%s.123456 write(1, x" % ep)
+        out.append(("hostile-text:field-limits", ("\n".join(nums) + "\n").encode()))
+        for one in nums:
+            out.append(("hostile-text:field-limit-first-line", (one + "\n" + one + "\n").encode()))
     if kind == "text":
         # modification times the file system accepts but that lie outside everyday ranges (the year of year-less timestamps
         # and the summary are derived from it)
@@ -195,7 +238,11 @@ def asan_signature(log):
 def run_one(args):
     s4, argv, env, watchdog = args
     t0 = time.monotonic()
-    p = subprocess.Popen([s4] + argv, env=env, stdin=subprocess.DEVNULL, stdout=subprocess.PIPE, stderr=subprocess.PIPE, start_new_session=True)
+    uid = env.pop("VERIF_RUN_AS_UID", None) if isinstance(env, dict) else None
+    kw = {}
+    if uid and os.geteuid() == 0:
+        kw = {"user": int(uid), "group": int(uid), "extra_groups": []}
+    p = subprocess.Popen([s4] + argv, env=env, stdin=subprocess.DEVNULL, stdout=subprocess.PIPE, stderr=subprocess.PIPE, start_new_session=True, **kw)
     try:
         out, err = p.communicate(timeout=watchdog)
         return core.Result(p.returncode, out, err, False, time.monotonic() - t0, [s4] + argv, env), None
@@ -252,7 +299,8 @@ def run(ctx):
             n += 1
             os.makedirs(dd)
             path = gen.write(os.path.join(dd, name), fdata)
-            if len(f) > 3:
+            unreadable = len(f) > 4 and f[4] == "unreadable"
+            if len(f) > 3 and f[3] is not None:
                 try:
                     os.utime(path, (f[3], f[3]))
                 except (OSError, OverflowError):
@@ -262,6 +310,10 @@ def run(ctx):
             files = [c.arg for c in cs]
             files.insert(rng.randint(0, len(files)), path)
             env = core.base_env(tmpdir=dd, extra={"ASAN_OPTIONS": "halt_on_error=1:abort_on_error=0:exitcode=97:detect_leaks=0:log_path=%s/asan" % dd})
+            if unreadable:
+                os.chmod(path, 0)
+                os.chmod(dd, 0o777)
+                env["VERIF_RUN_AS_UID"] = "65534"
             # a third of the runs with --summary: its bookkeeping after the printing loop handles every source that failed
             jobs.append((asan, ["--color", "never", "-t=+00:00"] + (["--summary"] if rng.random() < 0.33 else []) + files, env, 120))
             meta.append((kind, fclass, cs, files, dd, path))
